@@ -794,6 +794,45 @@ BUILDERS = {
 }
 
 
+PIPE_AGG = {'reduce_assoc': 0, 'group_by_reduce': 1, 'group_by_sum': 2, 'group_by_count': 3, 'group_by_avg': 4,
+            'group_by_min_element': 5, 'group_by_max_element': 6}
+
+
+def _native_two_phase(ex, builder, op, vals, where, nparts):
+    """public-API replay (kind `pipe_agg`): the real job with the witness' values produced by the witness' replicas
+    (one source replica per pre-aggregating replica), the real builder, wrapping add / min / max as user function"""
+    from mirsym.executor import RustPanic
+    xs = [hlib.concrete_int(ex, v) for v in vals]
+    args = [nparts, PIPE_AGG[builder], {'add': 0, 'min': 1, 'max': 2}[op], len(xs)]
+    for x, p in zip(xs, where):
+        args += [x, p]
+    runner, prof = ex.env['native']
+    ex.env['native_used'] = True
+    txt = runner('pipe_agg', args)[prof]
+    ex.env['native_out'] = txt
+    if txt == 'PANIC':
+        raise Unsupported('the real job panicked (arithmetic overflow in the dev profile is outside the claim)')
+    if txt.startswith(('BADARGS', 'UNKNOWN', 'NORESULT', 'TIMEOUT')):
+        raise Unsupported('native driver: ' + txt)
+    kind = BUILDERS[builder][1]
+    o = kind if kind in ('min', 'max') else (op if kind == 'reduce' else kind)
+    if o == 'add' or o == 'sum':
+        want = '%d' % (sum(xs) & ((1 << 64) - 1))
+    elif o == 'min':
+        want = '%d' % min(xs)
+    elif o == 'max':
+        want = '%d' % max(xs)
+    elif o == 'count':
+        want = '%d' % len(xs)
+    else:
+        want = '%.6f' % (sum(xs) / len(xs))
+    toks = [t.split(':', 1)[-1] for t in txt.split()]
+    if toks != [want]:
+        raise Violation('the real %s job over %s (replicas %s) yields "%s", the sequential aggregate is %s' %
+                        (builder, xs, where, txt, want), hlib._wit(ex))
+    return {'native': txt}
+
+
 def two_phase_harness(w, builder, op, nvals, nparts):
     fn = w.impls[(None, 'Stream')][builder]
     fn = [f for f in fn if 'Stream<Op>' in f.header.split(')')[0] or len(fn) == 1][0]
@@ -805,10 +844,16 @@ def two_phase_harness(w, builder, op, nvals, nparts):
         if 'init' not in cap:
             raise Unsupported('builder %s did not reach group_by_fold / fold_assoc' % builder)
         vals = [ex.fresh_int('u64', 'v%d' % i) for i in range(nvals)]
+        for v in vals:
+            ex.assume(z3.ULT(v.v, 1 << 32))      # sums of the bounded inputs do not overflow (overflow is not the subject)
         # distribute the values over the local (pre-aggregating) replicas, every way
         parts = [[] for _ in range(nparts)]
+        where = []
         for v in vals:
-            parts[ex.choose(nparts, 'local replica')].append(v)
+            where.append(ex.choose(nparts, 'local replica'))
+            parts[where[-1]].append(v)
+        if ex.env.get('native'):
+            return _native_two_phase(ex, builder, op, vals, where, nparts)
 
         def fold(closure, init, xs):
             acc = [w.clone_value(ex, init)]
@@ -858,7 +903,7 @@ def two_phase_tasks(tier, role):
             ts.append(Task('two_phase_%s_%s' % (b, op), 'two_phase_harness',
                            {'builder': b, 'op': op, 'nvals': nv, 'nparts': npart},
                            bounds='Stream::%s executed from MIR against a recording stream stub; its real init value and '
-                                  'local/global closures applied to %d symbolic u64 values split over %d pre-aggregating '
+                                  'local/global closures applied to %d symbolic u64 values (< 2^32) split over %d pre-aggregating '
                                   'replicas in every way, partial results reaching the global fold in every order; user '
                                   'function = wrapping %s' % (b, nv, npart, op), role=role,
                            opts={'covers': ['several_partitions'], 'panic_is_violation': False}, budget=300))
@@ -900,7 +945,20 @@ def transaction_harness(w, max_len):
         descr = ex.call_function(new, [logic])
         mgr = ex.call_function(build, [Ref([descr], 0), ListAcc()])
         script = hlib.gen_script(ex, 1, max_len, 'TW', payload=id_payload, ts_span=(1000, 6))
-        outs = drive_manager(ex, proc, [mgr], script)
+        if ex.env.get('native'):
+            params = []
+            for el in script:
+                if el.variant == 'Timestamped':
+                    code = ex.choose(4, 'transaction op')
+                    t = None
+                    if code == 2:
+                        t = ex.fresh_int('i64', 'commit_after')
+                        ex.assume(z3.And(t.v >= 995, t.v < 1010))
+                    logic.ops.append((['Continue', 'Commit', 'CommitAfter', 'Discard'][code], t))
+                    params += [code, hlib.concrete_int(ex, t) if t is not None else 0]
+            outs = hlib.native_manager(ex, 'mgr_transaction', params, script)
+        else:
+            outs = drive_manager(ex, proc, [mgr], script)
         sx = lambda: {'script': [repr(e) for e in script], 'ops': [(k, repr(t)) for k, t in logic.ops],
                       'results': [[repr(r) for r in rs] for _, rs in outs]}
         cur, close, opi = [], None, 0
@@ -974,8 +1032,17 @@ def flat_map_harness(w, iters, max_len):
     def h(ex):
         script = hlib.gen_script(ex, iters, max_len, 'ITW', payload=id_payload, ts_span=(1000, 5))
         f = Expand()
-        op = ex.call_function(new, [hlib.Upstream(script), f])
-        out = hlib.drive(ex, nxt, [op], 3 * len(script) + 4)
+        if ex.env.get('native'):
+            fan = []
+            for e in script:
+                if e.variant in ('Item', 'Timestamped'):
+                    k = ex.choose(3, 'flat_map fan-out')
+                    fan.append(k)
+                    f.log.append((e.fields[0].v, [e.fields[0].v * 10 + j for j in range(k)]))
+            out = hlib.native_operator(ex, 'flat_map', fan, script)
+        else:
+            op = ex.call_function(new, [hlib.Upstream(script), f])
+            out = hlib.drive(ex, nxt, [op], 3 * len(script) + 4)
         sx = lambda: {'script': [repr(e) for e in script], 'fanout': f.log, 'output': [repr(e) for e in out]}
         hlib.check_grammar(ex, out, iters, 'FlatMap output')
         hlib.check_wm_contract(ex, out, 'FlatMap output')
